@@ -694,6 +694,9 @@ func (r *runner) finalChecks() {
 	if r.has("no-5xx-without-fault") {
 		r.addV(checkNo5xx(r)...)
 	}
+	if r.has("volume-reads") {
+		r.addV(checkVolumeReads(r)...)
+	}
 	if r.has("pagination") {
 		r.addV(checkWalks(r)...)
 	}
@@ -836,12 +839,16 @@ func (r *runner) execWalk(op *Op, res *OpResult) {
 			var it struct {
 				ID      json.Number `json:"id"`
 				Address string      `json:"address"`
+				Account string      `json:"account"`
+				Asset   string      `json:"asset"`
 			}
 			d := json.NewDecoder(strings.NewReader(string(raw)))
 			d.UseNumber()
 			_ = d.Decode(&it)
 			if ws.Resource == "accounts" {
 				pg.IDs = append(pg.IDs, it.Address)
+			} else if ws.Resource == "volumes" {
+				pg.IDs = append(pg.IDs, it.Account+"/"+it.Asset)
 			} else {
 				pg.IDs = append(pg.IDs, it.ID.String())
 			}
